@@ -25,7 +25,7 @@ from ..common import Report, VERIF, REPO, budget
 from ..translators import atomicity as atom_tr
 from ..translators import indexsites as index_tr
 
-LEVEL = "fault_enumeration"
+LEVEL = "proof"
 RULE = ("(1) fault catalogue {drop/add/resize a dim, size-1, empty, 0-dim, bool/int/float64/half dtype, label −1, label 10^6, NaN, inf, None, str, "
         "list, missing positional, extra kwarg} applied to one argument of a valid grid-valued call, injected after 0–2 valid updates, "
         "followed by 2 valid updates + compute on the object and on a twin; every registry class × config and every functional twin; "
